@@ -83,6 +83,12 @@ const (
 	InvDevDelMin      = "dev-delete-different-min"
 	InvDevBadType     = "dev-unresolvable-type"
 	InvDevUnknownKind = "dev-unknown-kind"
+	// InvDevGone: a later deviation of the same module names a node (or a node
+	// below one) that an earlier deviation of that module removed.
+	InvDevGone = "dev-target-removed-earlier"
+	// InvDevDoubleNS: deviate not-supported written twice in one deviation; the
+	// second one has nothing left to remove.
+	InvDevDoubleNS = "dev-not-supported-twice"
 	// InvFanoutChain: an unresolvable typedef below a chain of typedefs each of
 	// which is a union of two references to the level below: resolution work
 	// must stay polynomial (a hang is a C01 violation).
@@ -1155,8 +1161,26 @@ func (g *gen) deviations() {
 	}
 	_ = removed
 	gone := map[*XNode]bool{}
+	goneBy := map[*XNode]*Mod{}
 	for i := 0; i < nd; i++ {
 		tg := cand[t.Intn(len(cand))]
+		if by := func() *Mod {
+			for p := tg.x; p != nil; p = p.Parent {
+				if goneBy[p] != nil {
+					return goneBy[p]
+				}
+			}
+			return nil
+		}(); by != nil && !used[tg.x] || by != nil && gone[tg.x] {
+			if g.wantInvalid(InvDevGone) {
+				dv := &Deviate{Kind: "not-supported"}
+				if t.Chance(1, 2) {
+					dv = &Deviate{Kind: "replace", Config: "false"}
+				}
+				by.Deviations = append(by.Deviations, &Deviation{Target: g.finalPath(tg), Deviates: []*Deviate{dv}, Invalid: InvDevGone})
+			}
+			continue
+		}
 		if used[tg.x] {
 			if g.p.CrossDeviationTrap && len(dms) > 1 && !gone[tg.x] && (tg.x.Kind == KLeaf || tg.x.Kind == KLeafList || tg.x.Kind == KContainer) {
 				// every deviating module sets the same property to its own value
@@ -1195,6 +1219,7 @@ func (g *gen) deviations() {
 				continue
 			}
 			gone[x] = true
+			goneBy[x] = dm
 			d.Deviates = []*Deviate{{Kind: "not-supported"}}
 			dm.Deviations = append(dm.Deviations, d)
 			continue
@@ -1260,6 +1285,11 @@ func (g *gen) deviations() {
 					continue
 				}
 				gone[x] = true
+				goneBy[x] = dm
+				if g.wantInvalid(InvDevDoubleNS) {
+					d.Deviates = append(d.Deviates, &Deviate{Kind: "not-supported"})
+					d.Invalid = InvDevDoubleNS
+				}
 			case 1: // add: only of an absent property
 				dv.Kind = "add"
 				for np, got := g.devProps(), 0; np > 0; np-- {
